@@ -10,7 +10,8 @@ RULE = ('(1) token stream: sources = fixtures of /repo + generated lexeme soups 
         'grammar (canonical and with non-ASCII comments / CRLF in the gaps) and from the fixtures carries the byte span of its own spelling and the file id, '
         'only elementary type names may be spanless; (3) diagnostic labels: for every single-fault unit of C02 in 1-3 files each label lies in a file of '
         'the set, is non-empty, starts and ends on lexeme boundaries, covers the marker name of the planted fault, and for duplicate names the primary '
-        'label is the later declaration and the secondary the first')
+        'label is the later declaration and the secondary the first; (4) the ranges of the diagnostics published over LSP for documents with non-ASCII '
+        'comments before the labelled text are the line/character of the label offsets')
 
 
 def lex_cases(ctx):
@@ -156,14 +157,65 @@ def diag_labels(ctx):
                                                'what': f'the duplicate-name diagnostic labels f{f1}.st:{a1} as the duplicate and f{f2}.st:{a2} as the first declaration: the duplicate is not the later one'})
 
 
+def lsp_ranges(ctx):
+    """the range of every diagnostic published by `ironplcc lsp --stdio` is the line / character of the label's byte
+    offsets in the document (characters or UTF-16 units), also with non-ASCII text before the label on its line"""
+    from .. import lspclient
+    rng = ctx.rng
+    docs = []
+    for trial in range(6 if ctx.quick() else 80):
+        base, ns = units.gen_valid(rng, size=1)
+        ss = units.plant_all(base, ns, rng)
+        if not ss: continue
+        for (fk, code, ds) in rng.sample(ss, min(len(ss), 4)):
+            lines = units.print_file(ds, rng).split('\n')
+            for _ in range(rng.randint(2, 6)):
+                k = rng.randrange(len(lines))
+                lines[k] = f'(* {rng.choice(["é", "üß", "日本", "€", "é é"])} *) ' + lines[k]
+            docs.append((fk, '\n'.join(lines)))
+    hist = [[('open', 'f0', 1, t)] for fk, t in docs]
+    sess = lspclient.sessions(hist, jobs=8)
+    ana = core.run_lines(core.VH, ['project ' + core.hexs(t) for fk, t in docs], jobs=8)
+    for (fk, t), s, o in zip(docs, sess, ana):
+        ctx.evaluations += 1
+        ctx.count('lsp-range:documents')
+        if not s['diags'] or not o.startswith('ERR'): continue
+        raw = t.encode('utf-8')
+        expected = []   # per diagnostic: code, admissible (line, col) sets for start and end
+        for d in o.split(' ')[1:]:
+            if '@' not in d or d.startswith('PARSE'): continue
+            code, rest = d.split('@', 1)
+            m = re.match(r'^f0\.st:(\d+)-(\d+)', rest.split('!')[0])
+            if not m: continue
+            a, b = int(m.group(1)), int(m.group(2))
+            def lc(off):
+                # LSP positions count characters / UTF-16 units, never bytes
+                line = raw.count(b'\n', 0, off)
+                seg = raw[raw.rfind(b'\n', 0, off) + 1:off].decode('utf-8', 'replace')
+                return line, {len(seg), len(seg.encode('utf-16-le')) // 2}
+            la, ca = lc(a)
+            lb, cb = lc(b)
+            expected.append((code, la, ca, lb, cb))
+        got = s['diags'][-1]
+        for (code, l1, c1, l2, c2) in got:
+            ok = any(code == e[0] and l1 == e[1] and c1 in e[2] and l2 == e[3] and c2 in e[4] for e in expected)
+            if not ok and any(code == e[0] for e in expected):
+                ctx.violations.append({'stream': 'lsp-range', 'case': {'fault': fk, 'text': t}, 'impl': f'{code} {l1}:{c1}-{l2}:{c2}', 'model': str([(e[0], e[1], sorted(e[2]), e[3], sorted(e[4])) for e in expected if e[0] == code][:3]),
+                                       'what': f'the published range {l1}:{c1}-{l2}:{c2} of {code} is not the line/character of the label of the diagnostic in the document'})
+                break
+        else:
+            if got: ctx.feature(('lsp-range', fk, len(got)))
+
+
 def run(ctx):
-    core.prepare(ctx)
+    core.prepare(ctx, need_binary=True)
     cases = lex_cases(ctx)
     run_stream(ctx, 'lex', cases, lambda c: 'lex ' + core.hexs(c['text']), judge_lex,
                nontrivial=lambda c: len(c['text']) >= 3,
                shrink_text=True)
     id_spans(ctx)
     diag_labels(ctx)
+    lsp_ranges(ctx)
     return core.finish(ctx, level='proof', rule=RULE,
                        assumptions=['logos error extent is a calibrated parameter of the model (tiling is proved for every policy)',
                                     'a line break is \\n; a column may be counted in bytes, chars or UTF-16 units'])
